@@ -46,7 +46,7 @@ type Program struct {
 	callerIdx    map[*ssa.Function][]ssa.CallInstruction
 	users        map[*ssa.Function]map[*ssa.Function]bool
 	regions      map[*ssa.Function][]*ssa.Function
-	linFrames     []linFrame
+	linFrames    []linFrame
 	helperMemo   map[helperKey]int
 	Canon        []string
 	boundMemo    map[[2]interface{}][]ssa.Value
